@@ -240,6 +240,11 @@ class Relay(W.NetPolicy):
                             {"redeliver_of": oserial, "newid": bool(newid), "flip": bool(flip),
                              "otherport": bool(otherport), "back": back}))
         for data, src, dst in outs:
+            if f == "id0" and to_server and len(data) > 2 and data[:3] != proto.RAW_HDR:
+                # a relay that happens to pick DNS id 0 for the forwarded query ("no query" for the server)
+                old = struct.unpack(">H", dg.data[:2])[0]
+                self.idmap[(dg.src, 0)] = self.idmap.get((dg.src, struct.unpack(">H", data[:2])[0]), old)
+                data = b"\x00\x00" + data[2:]
             if f == "delay":
                 res.append((self.latency + self.rng.randrange(1000, self.max_delay), data, src, dst))
             else:
